@@ -418,6 +418,8 @@ def scenarios(tier):
          "threads": [{"h": 0, "ops": [A(2)]}, {"h": 0, "ops": [L(), L()]}, {"h": 0, "ops": [L()]}]},
         {"name": "rm_exist", "init": [1, 2], "handles": 1,
          "threads": [{"h": 0, "ops": [R(1)]}, {"h": 0, "ops": [E(1), E(1), E(2)]}]},
+        {"name": "add_exist2", "init": [1], "handles": 1,
+         "threads": [{"h": 0, "ops": [A(2)]}, {"h": 0, "ops": [E(2)]}, {"h": 0, "ops": [E(2)]}]},
         {"name": "two_handles", "init": [1], "handles": 2,
          "threads": [{"h": 0, "ops": [A(2), L()]}, {"h": 1, "ops": [L(), L()]}]},
         {"name": "w2_r2", "init": [], "handles": 1,
@@ -586,9 +588,39 @@ def run(ctx):
         rows = hmemo(["-mode", "explore"], inp=json.dumps(scn) + "\n", timeout=1500)
         summary = [r for r in rows if r["kind"] == "explored"][0]
         rs = [r for r in rows if r["kind"] == "sched"]
-        if not summary["exhausted"] or any(r["hang"] or r["invalid"] or not r["complete"] for r in rs):
+        hung = [r for r in rs if r["hang"]]
+        if hung:
+            r = hung[0]
+
+            def stale_of(res):
+                out = []
+                for t, (th, recs) in enumerate(zip(scn["threads"], res["threads"])):
+                    for k, (o, rec) in enumerate(zip(th["ops"], recs)):
+                        if o["k"] in ("list", "exist") and rec["a"] != rec["ref"] and \
+                           not any(rec["a"] == x for x in rec["refs"][rec["start_v"]:rec["end_v"] + 1]):
+                            out.append({"thread": t, "request": k, "op": o, "observed": rec})
+                return out
+            stale = stale_of(r)
+            if not stale:
+                # failing-input search: the same steps in every other order, then the blocked thread's step
+                import itertools
+                cands = sorted(set(itertools.permutations(r["sched"][:-1])))[:16]
+                tries = hmemo(["-mode", "sched"], inp="\n".join(
+                    json.dumps({"scn": scn, "sched": list(c) + [r["sched"][-1]]}) for c in cands) + "\n", timeout=600)
+                for t2 in tries:
+                    if not t2["invalid"] and stale_of(t2):
+                        r, stale = t2, stale_of(t2)
+                        break
+            ctx.violation({"kind": "request-blocks-on-another-request", "scenario": scn, "schedule": r["sched"],
+                           "parked_at": r.get("status"), "ran_off_after_release": r.get("free_run"), "stale_reads_after_release": stale,
+                           "explain": "under this schedule the stepped thread neither reached a yield point at the wrapped store's "
+                                      "interface nor finished its request: in the real memoizer one request waits for another one, "
+                                      "which the model (and the code the model was written from) never does. After releasing all threads "
+                                      "the listed reads returned an answer the wrapped store gave at no moment of the read."})
+            continue
+        if not summary["exhausted"] or any(r["invalid"] or not r["complete"] for r in rs):
             ctx.violation({"kind": "interleaving-exploration-incomplete", "scenario": scn, "summary": summary,
-                           "explain": "a schedule hung or the budget was exhausted"})
+                           "explain": "the schedule budget was exhausted or a schedule was invalid"})
             continue
         scn_marks.append((sched_block(batch, scn["name"], scn, rs, len(rs)), scn, rs))
         nsched += len(rs)
